@@ -613,6 +613,15 @@ static void op_put(struct mon_rng *r, uint32_t cls) {
             mon_flag(F_CAP1_EVICT);
         }
         mon_count("evictions", 1);
+    } else if (s_kind != KIND_TABLE) {
+        /* no overflow: the policy must not evict anything */
+        struct aws_linked_hash_table_node *fw[MAX_WALK + 1];
+        size_t nf = walk_forward(fw, MAX_WALK);
+        if (nf < s_n) {
+            VIOL(kindkey("evicted-without-overflow"),
+                 "after %s: cache holds %zu entries [%s] although only %zu of max_items %zu were due [%s]", s_op, nf,
+                 describe_real(fw, nf), s_n, s_max, describe_model());
+        }
     }
     mon_count("puts", 1);
 }
@@ -895,8 +904,11 @@ static void run_case(void) {
         if (s_hmode == 0 && s_n >= 3) {
             mon_flag(F_ALL_COLLIDE);
         }
-        verify_destructors();
-        check_all();
+        /* a policy alarm already names the failure; the generic comparisons would only repeat it under other keys */
+        if (!s_case_viol) {
+            verify_destructors();
+            check_all();
+        }
         if (was_put && !s_case_viol) {
             op_begin();
             op_find_just_inserted();
